@@ -1,9 +1,9 @@
 (* per-case verdict for C06; used by the generated cases files *)
-From Coq Require Import List Bool Ascii NArith.
-From TxVerif Require Import Lib.Bytes Lib.Verdict Spec.Rfc1928 Spec.C06 Model.SocksEnc.
+From Coq Require Import String List Bool Ascii NArith.
+From TxVerif Require Import Lib.Bytes Lib.Verdict Spec.Rfc1928 Spec.C06 Spec.C05 Model.SocksEnc Model.Socks.
 Import ListNotations.
 
-Record case := { c_ty : rtype; c_t : target; c_port : N; c_obs : obs; c_greet : bytes }.
+Record case := { c_ty : rtype; c_t : target; c_port : N; c_obs : obs; c_greet : bytes; c_method : list bytes }.
 
 Definition obs_eqb (a b : obs) : bool :=
   match a, b with
@@ -12,9 +12,26 @@ Definition obs_eqb (a b : obs) : bool :=
   | _, _ => false
   end.
 
-Definition check (c : case) : verdict :=
-  if negb (wf_targetb (c_t c)) then VSkip else
-  let m := obs_eqb (model_obs (c_ty c) (c_t c) (c_port c)) (c_obs c)
-           && option_eqb beqb version_bytes (Some (c_greet c)) in
-  let o := oracle (c_ty c) (c_t c) (c_port c) (c_obs c) && beqb (c_greet c) greeting_noauth in
+(* the model's view: run the SOCKS machine on the method-reply chunks, collect what it writes *)
+Definition writes_of (es : list ev) : bytes :=
+  List.concat (map (fun e => match e with EWrote b => b | _ => [] end) es).
+Definition raised_in (es : list ev) : bool :=
+  existsb (fun e => match e with ERaised _ => true | _ => false end) es.
+Definition machine_obs (k : case) : bytes * obs :=
+  match run {| Socks.c_ty := c_ty k; c_target := c_t k; Socks.c_port := c_port k |} (c_method k) false with
+  | conn :: rest =>
+      let w := writes_of (List.concat rest) in
+      (writes_of conn,
+       match w with
+       | [] => if raised_in (List.concat rest) then ORefused else OWrote []
+       | _ => OWrote w
+       end)
+  | [] => ([], ORefused)
+  end.
+
+Definition check (k : case) : verdict :=
+  if negb (wf_targetb (c_t k)) then VSkip else
+  let '(g, o) := machine_obs k in
+  let m := obs_eqb o (c_obs k) && beqb g (c_greet k) in
+  let o := oracle_full (c_ty k) (c_t k) (c_port k) (List.concat (c_method k)) (c_obs k) && beqb (c_greet k) greeting_noauth in
   mk_verdict (Some m) o.
